@@ -64,14 +64,19 @@ def units():
     # ---- public operations (VectorImpl) per flavour
     FLAV = {'small': (1, 'SmallVectorBase_E_A_%s', 'VectorImpl_E_A_%s_t_Dyn'), 'std': (2, 'StdVectorBase_E_A_%s', 'VectorImpl_E_A_%s_f_Dyn'),
             'static': (3, 'StaticVectorBase_E_%s', 'VectorImpl_E_X_%s_t_Exc')}
-    L2 = [('push_back__rE', ['C01', 'C02', 'C05', 'C06', 'C07', 'C08', 'C09', 'C10', 'C18'])]
+    ALLP = ['C01', 'C02', 'C05', 'C06', 'C07', 'C08', 'C09', 'C18']
+    L2 = [('push_back__rE', ALLP + ['C10']), ('push_back__rrE', ALLP), ('pop_back__v', ['C01', 'C02', 'C05', 'C07', 'C09']),
+          ('clear__v', ['C01', 'C02', 'C05', 'C07', 'C09']), ('resize__%(S)s', ALLP), ('resize__%(S)s_rE', ALLP + ['C10']),
+          ('insert__pE_rE', ALLP + ['C10']), ('insert__pE_rrE', ALLP), ('insert__pE_%(S)s_rE', ALLP + ['C10']),
+          ('erase__pE', ['C01', 'C02', 'C05', 'C07', 'C09']), ('erase__pE_pE', ['C01', 'C02', 'C05', 'C07', 'C09'])]
     for elem in ('ElemNR', 'ElemTR'):
         et = ELEM_TAG[elem]
         for sz in ('u8',):
             for fl, (fnum, bpat, vpat) in FLAV.items():
                 for m, props in L2:
                     pp = [p for p in props if not (fl == 'static' and p in ('C06', 'C18')) and not (fl == 'std' and p == 'C05')]
-                    add('op.%s.%s.%s.%s' % (m.split('__')[0] + '_' + m.split('__')[1], fl, et, sz), (vpat % sz) + '__' + m, pp, fnum, bpat % sz, sz, elem)
+                    m2 = m % {'S': sz}
+                    add('op.%s.%s.%s.%s' % (m2.split('__')[0] + '_' + m2.split('__')[1], fl, et, sz), (vpat % sz) + '__' + m2, pp, fnum, bpat % sz, sz, elem)
     for sz in ('u8',):
         add('SafeNextCapacity.%s' % sz, 'SafeNextCapacity__%s_u64_b' % sz, ['C08', 'C18'], 1, svb('ElemNR', sz), sz, 'ElemNR')
     add('ExceptionGrowingPolicy.Check', 'Exc__Check__u64_u64', ['C08'], 1, svb('ElemNR', 'u8'), 'u8', 'ElemNR')
